@@ -24,7 +24,6 @@ import (
 	"os/exec"
 	"path/filepath"
 	"regexp"
-	"runtime"
 	"sort"
 	"strconv"
 	"strings"
@@ -54,13 +53,16 @@ func parentCases() []string {
 	if core.Thorough() {
 		cs = append(cs, "limit/at", "limit/over")
 	}
-	for i := 0; i < core.Pick(3, 40); i++ {
+	for i := 0; i < core.Pick(4, 60); i++ {
+		cs = append(cs, fmt.Sprintf("contend/%d", i))
+	}
+	for i := 0; i < core.Pick(2, 40); i++ {
 		cs = append(cs, fmt.Sprintf("mesh/big/%d", i))
 	}
-	for i := 0; i < core.Pick(8, 200); i++ {
+	for i := 0; i < core.Pick(5, 200); i++ {
 		cs = append(cs, fmt.Sprintf("mesh/boundary/%d", i))
 	}
-	for i := 0; i < core.Pick(14, 400); i++ {
+	for i := 0; i < core.Pick(10, 400); i++ {
 		cs = append(cs, fmt.Sprintf("mesh/small/%d", i))
 	}
 	for _, k := range hostileKinds {
@@ -86,9 +88,12 @@ func parentCases() []string {
 }
 
 type childSpec struct {
-	Procs int      `json:"procs"`
-	Shard int      `json:"shard"`
-	Cases []string `json:"cases"`
+	Procs  int      `json:"procs"` // GOMAXPROCS of a race child
+	Shard  int      `json:"shard"`
+	Race   bool     `json:"race"`
+	Budget int      `json:"budget"` // weight of cases running at once
+	Chunk  int      `json:"chunk"`  // packet payload size measured by the probe child (0: measure)
+	Cases  []string `json:"cases"`
 }
 
 func raceChildren() []childSpec {
@@ -131,10 +136,13 @@ var racePrefix = regexp.MustCompile(`^race-p\d+/s\d+/`)
 
 func nodesNeeded(name string) int {
 	base := racePrefix.ReplaceAllString(name, "")
+	if strings.Contains(base, "overlimit") || strings.Contains(base, "at-limit") {
+		return 6
+	}
 	switch strings.SplitN(base, "/", 2)[0] {
 	case "mesh":
 		return 4
-	case "hostile", "inbox-full", "slow-link", "limit":
+	case "hostile", "inbox-full", "slow-link", "limit", "contend":
 		return 2
 	case "teardown":
 		return 3
@@ -169,7 +177,14 @@ func runCase(res *results, name string) {
 		}
 		caseMesh(res, name, rng, mp)
 	case "hostile":
-		caseHostile(res, name, f[1], rng)
+		// the over-limit scripts need 256 MB to get through before the victim's own 3 s heartbeat deadline
+		// ends the connection for an unrelated reason; on a starved machine they get three attempts
+		for attempt := 0; attempt < 3; attempt++ {
+			if caseHostile(res, name, f[1], rng) {
+				break
+			}
+			res.count("hostile_overlimit_retries", 1)
+		}
 	case "early-send":
 		caseEarlySend(res, name, rng, !inRace || rng.Intn(2) == 0)
 	case "teardown":
@@ -180,6 +195,8 @@ func runCase(res *results, name string) {
 		caseSlowLink(res, name, rng)
 	case "limit":
 		caseLimit(res, name, f[1], rng)
+	case "contend":
+		caseContend(res, name, rng)
 	default:
 		panic("unknown case " + name)
 	}
@@ -194,7 +211,7 @@ func weight(name string) int {
 		return 0 // mostly asleep
 	case strings.HasPrefix(base, "limit"), strings.Contains(base, "overlimit"), strings.Contains(base, "at-limit"):
 		return 5
-	case strings.HasPrefix(base, "mesh/big"), strings.HasPrefix(base, "mesh/boundary"):
+	case strings.HasPrefix(base, "mesh/big"), strings.HasPrefix(base, "mesh/boundary"), strings.HasPrefix(base, "contend"):
 		return 3
 	case strings.HasPrefix(base, "teardown"):
 		return 2
@@ -245,7 +262,11 @@ func apply(run *core.Run, res *results) {
 	res.mu.Lock()
 	defer res.mu.Unlock()
 	for _, v := range res.Viol {
-		run.Violation(v.Sig, "^"+regexp.QuoteMeta(v.Case)+"$", v.Witness)
+		sel := "^" + regexp.QuoteMeta(v.Case) + "$"
+		if v.Regex {
+			sel = v.Case
+		}
+		run.Violation(v.Sig, sel, v.Witness)
 	}
 	names := make([]string, 0, len(res.Counts))
 	for k := range res.Counts {
@@ -285,7 +306,7 @@ func TestCheck(t *testing.T) {
 			"inbox-overflow and send-timeout cases in which the event aimed at was actually observed")
 	defer run.Finish()
 	run.MinDistinct = core.Pick(40, 400)
-	run.Assume("SHA-256 is collision free; the in-memory link delivers bytes in order and unmodified (it is the harness's own 150 lines)")
+	run.Assume("SHA-256 is collision free; the in-memory link delivers bytes in order and unmodified (it is the harness's own 200 lines)")
 	run.Assume("losses are accepted only when the code itself logged 'Inbox ... queue full' for that node and topic, or after a teardown of that connection")
 
 	tmp, err := os.MkdirTemp("", "c18-")
@@ -294,58 +315,77 @@ func TestCheck(t *testing.T) {
 	}
 	defer os.RemoveAll(tmp)
 
-	cases := filter(run, parentCases())
-	need := 6
-	for _, n := range cases {
-		need += nodesNeeded(n)
-	}
-	fillNodePool(need, tmp)
-	res := newResults()
-	var perr error
-	for i := 0; i < 3; i++ {
-		if perr = probeChunk(res); perr == nil {
-			break
+	// Every case runs in a child process: the code under test can crash the process (and does: see the
+	// crash-in-canopy signature), which must cost one observation, not the run.
+	var children []childSpec
+	plain := filter(run, parentCases())
+	shards := core.Pick(3, 4)
+	for s := 0; s < shards; s++ {
+		ch := childSpec{Shard: s, Budget: core.Pick(4, 4)}
+		for i, n := range plain {
+			if i%shards == s {
+				ch.Cases = append(ch.Cases, n)
+			}
+		}
+		if len(ch.Cases) > 0 {
+			children = append(children, ch)
 		}
 	}
-	if perr != nil {
-		t.Fatalf("probe: %v", perr)
-	}
-	run.Extra("measured_packet_payload_bytes", chunk)
-	run.Extra("message_size_limit_bytes", maxMsg)
-
-	// race children run beside the in-process cases
-	var cwg sync.WaitGroup
-	children := raceChildren()
 	raceBin := os.Getenv("VERIF_RACE_BIN")
-	var launched int
-	rres := newResults()
-	reports := map[string]*raceReport{}
-	var rmu sync.Mutex
-	seq := make(chan struct{}, core.Pick(2, 3)) // children at a time
-	for _, ch := range children {
+	raceWanted := false
+	for _, ch := range raceChildren() {
 		ch.Cases = filter(run, ch.Cases)
 		if len(ch.Cases) == 0 {
 			continue
 		}
+		raceWanted = true
 		if raceBin == "" {
-			run.Inconclusive("VERIF_RACE_BIN not set: the race-detector monitor did not run")
-			break
+			continue
 		}
-		launched++
+		ch.Race = true
+		ch.Budget = max(3, min(ch.Procs, 6))
+		children = append(children, ch)
+	}
+	if raceWanted && raceBin == "" {
+		run.Inconclusive("VERIF_RACE_BIN not set: the race-detector monitor did not run")
+	}
+	res := newResults()
+	reports := map[string]*raceReport{}
+	var rmu sync.Mutex
+	var cwg sync.WaitGroup
+	// a first, tiny child measures the packet payload size of the real sender
+	runChild(t, os.Args[0], tmp, childSpec{Shard: 99}, res, reports, &rmu)
+	measured := int(res.Counts["packet_payload_bytes_last_probe"])
+	if measured == 0 {
+		t.Fatalf("probe child did not report a packet payload size")
+	}
+	for i := range children {
+		children[i].Chunk = measured
+	}
+	slots := make(chan struct{}, core.Pick(5, 5)) // child processes at a time
+	for _, ch := range children {
 		cwg.Add(1)
 		go func(ch childSpec) {
 			defer cwg.Done()
-			seq <- struct{}{}
-			defer func() { <-seq }()
-			runChild(t, raceBin, tmp, ch, rres, reports, &rmu)
+			slots <- struct{}{}
+			defer func() { <-slots }()
+			bin := os.Args[0]
+			if ch.Race {
+				bin = raceBin
+			}
+			runChild(t, bin, tmp, ch, res, reports, &rmu)
 		}(ch)
 	}
-	progress, _ := os.Create(filepath.Join(tmp, "parent-progress"))
-	runCases(res, cases, 10, progress)
 	cwg.Wait()
 	apply(run, res)
-	apply(run, rres)
-	if launched > 0 {
+	run.Extra("measured_packet_payload_bytes", res.Counts["packet_payload_bytes_last_probe"])
+	run.Extra("message_size_limit_bytes", maxMsg)
+	if run.Want("hostile/overlimit/0") && res.Counts["hostile_rejected_by_size_cap"] == 0 {
+		// the size-cap sub-monitor saw nothing (the machine was too slow to push 256 MB within the code's
+		// heartbeat deadline): say so rather than pass silently
+		run.Inconclusive("the message-size cap was never reached in this run (over-limit scripts ended by the victim's heartbeat timeout)")
+	}
+	if raceWanted && raceBin != "" {
 		keys := make([]string, 0, len(reports))
 		for k := range reports {
 			keys = append(keys, k)
@@ -359,7 +399,7 @@ func TestCheck(t *testing.T) {
 	}
 }
 
-// ---------- race children ----------
+// ---------- child processes ----------
 
 type childJob struct {
 	Spec childSpec `json:"spec"`
@@ -367,59 +407,150 @@ type childJob struct {
 	Dir  string    `json:"dir"`
 }
 
-func runChild(t *testing.T, bin, tmp string, ch childSpec, rres *results, reports map[string]*raceReport, rmu *sync.Mutex) {
-	dir := filepath.Join(tmp, fmt.Sprintf("child-p%d-s%d", ch.Procs, ch.Shard))
-	_ = os.MkdirAll(dir, 0o755)
-	job := childJob{Spec: ch, Out: filepath.Join(dir, "out.json"), Dir: dir}
-	jb, _ := json.Marshal(job)
-	jobPath := filepath.Join(dir, "job.json")
-	_ = os.WriteFile(jobPath, jb, 0o644)
-	cmd := exec.Command(bin, "-test.run", "^TestRaceChild$", "-test.count=1", "-test.timeout", "40m")
-	cmd.Env = append(os.Environ(),
-		"VERIF_C18_CHILD="+jobPath,
-		"GOMAXPROCS="+strconv.Itoa(ch.Procs),
-		"GORACE=halt_on_error=0 history_size=3 log_path="+filepath.Join(dir, "race"))
-	logf, _ := os.Create(filepath.Join(dir, "stdout"))
-	cmd.Stdout, cmd.Stderr = logf, logf
-	err := cmd.Run()
-	logf.Close()
-	prefix := fmt.Sprintf("race-p%d/s%d/", ch.Procs, ch.Shard)
-	out, rerr := os.ReadFile(job.Out)
-	if rerr != nil {
+var (
+	panicLine   = regexp.MustCompile(`(?m)^(panic:|fatal error:).*$`)
+	canopyFrame = regexp.MustCompile(`github\.com/canopy-network/canopy/([^\s(]+(\([^)]*\))?[^\s(]*)`)
+)
+
+// runChild runs the cases of one shard in a child process; if the child dies it records why and carries on
+// with the cases that had not been started.
+func runChild(t *testing.T, bin, tmp string, ch childSpec, res *results, reports map[string]*raceReport, rmu *sync.Mutex) {
+	prefix := fmt.Sprintf("plain/s%d", ch.Shard)
+	if ch.Race {
+		prefix = fmt.Sprintf("race-p%d/s%d/", ch.Procs, ch.Shard)
+	}
+	remaining := ch.Cases
+	for attempt := 0; (len(remaining) > 0 || ch.Shard == 99) && attempt < 6; attempt++ {
+		dir := filepath.Join(tmp, fmt.Sprintf("child-%s-%d", strings.ReplaceAll(prefix, "/", "_"), attempt))
+		_ = os.MkdirAll(dir, 0o755)
+		spec := ch
+		spec.Cases = remaining
+		job := childJob{Spec: spec, Out: filepath.Join(dir, "out.json"), Dir: dir}
+		jb, _ := json.Marshal(job)
+		jobPath := filepath.Join(dir, "job.json")
+		_ = os.WriteFile(jobPath, jb, 0o644)
+		cmd := exec.Command(bin, "-test.run", "^TestChild$", "-test.count=1", "-test.timeout", "3h")
+		cmd.Env = append(os.Environ(), "VERIF_C18_CHILD="+jobPath)
+		if ch.Race {
+			cmd.Env = append(cmd.Env, "GOMAXPROCS="+strconv.Itoa(ch.Procs),
+				"GORACE=halt_on_error=0 history_size=3 log_path="+filepath.Join(dir, "race"))
+		}
+		logf, _ := os.Create(filepath.Join(dir, "stdout"))
+		cmd.Stdout, cmd.Stderr = logf, logf
+		err := cmd.Run()
+		logf.Close()
+		if os.Getenv("VERIF_C18_TIMING") != "" {
+			lg, _ := os.ReadFile(filepath.Join(dir, "stdout"))
+			for _, ln := range strings.Split(string(lg), "\n") {
+				if strings.HasPrefix(ln, "TIMING") || strings.HasPrefix(ln, "DEBUG") {
+					fmt.Println(ln)
+				}
+			}
+		}
+		if ch.Race {
+			collectRaces(t, dir, prefix, ch.Procs, res, reports, rmu)
+		}
+		out, rerr := os.ReadFile(job.Out)
+		if rerr == nil {
+			var cr results
+			if err := json.Unmarshal(out, &cr); err != nil {
+				t.Errorf("child result: %v", err)
+				return
+			}
+			mergeChild(res, &cr, ch.Race)
+			return
+		}
 		// no result: the child died. Inside canopy = an observation; elsewhere = my error.
 		lg, _ := os.ReadFile(filepath.Join(dir, "stdout"))
 		prog, _ := os.ReadFile(filepath.Join(dir, "progress"))
-		if m := regexp.MustCompile(`(?m)^(panic:|fatal error:).*$`).Find(lg); m != nil && bytes.Contains(lg, []byte("github.com/canopy-network/canopy/")) {
-			fn := "?"
-			if f := regexp.MustCompile(`github\.com/canopy-network/canopy/[^\s(]+(\([^)]*\))?[^\s(]*`).Find(lg[bytes.Index(lg, m):]); f != nil {
-				fn = string(f)
-			}
-			rres.violate(fmt.Sprintf("crash-in-canopy %s at=%s", strings.TrimSpace(string(m)), fn), prefix,
-				map[string]any{"active_cases": activeCases(prog), "log_tail": tail(lg, 6000)})
+		active, ended := progressOf(prog)
+		m := panicLine.Find(lg)
+		if m == nil || !bytes.Contains(lg, []byte(canopyPath)) {
+			t.Errorf("child %s failed without a result: %v\n%s", prefix, err, tail(lg, 3000))
+			res.inconclusive("child %s died outside canopy code", prefix)
 			return
 		}
-		t.Errorf("race child %s failed without a result: %v\n%s", prefix, err, tail(lg, 3000))
-		rres.inconclusive("race child %s died outside canopy code", prefix)
-		return
+		fn := "?"
+		if f := canopyFrame.FindSubmatch(lg[bytes.Index(lg, m):]); f != nil {
+			fn = string(f[1])
+			if i := strings.Index(fn, "("); i > 0 && !strings.HasPrefix(fn[i:], "(*") {
+				fn = fn[:i]
+			}
+			if i := strings.LastIndex(fn, "("); i > 0 && !strings.HasPrefix(fn[i:], "(*") {
+				fn = fn[:i]
+			}
+		}
+		mode := "plain"
+		if ch.Race {
+			mode = "race"
+		}
+		res.mu.Lock()
+		res.Viol = append(res.Viol, violation{Sig: fmt.Sprintf("crash-in-canopy %s at=%s", strings.TrimSpace(string(m)), fn),
+			Case: strings.Join(quoteAll(active), "|"), Regex: true,
+			Witness: map[string]any{"build": mode, "active_cases": active, "log_tail": tail(lg, 6000)}})
+		res.mu.Unlock()
+		res.count("child_process_crashes", 1)
+		// carry on with what had not been started; the cases active at the crash are spent
+		done := map[string]bool{}
+		for _, n := range active {
+			done[n] = true
+		}
+		for _, n := range ended {
+			done[n] = true
+		}
+		var next []string
+		for _, n := range remaining {
+			if !done[n] {
+				next = append(next, n)
+			}
+		}
+		if len(next) == len(remaining) && len(next) > 0 {
+			next = next[1:] // no progress information: make sure the loop ends
+		}
+		remaining = next
 	}
-	var cr results
-	if err := json.Unmarshal(out, &cr); err != nil {
-		t.Errorf("race child result: %v", err)
-		return
+}
+
+func quoteAll(names []string) []string {
+	out := make([]string, len(names))
+	for i, n := range names {
+		out[i] = "^" + regexp.QuoteMeta(n) + "$"
 	}
-	// counters of the child are kept apart from the in-process ones
-	rres.mu.Lock()
+	return out
+}
+
+func mergeChild(res, cr *results, race bool) {
+	res.mu.Lock()
+	defer res.mu.Unlock()
+	pre := ""
+	if race {
+		pre = "race_child_" // counters of race children are kept apart from those of the plain build
+	}
 	for k, v := range cr.Counts {
-		rres.Counts["race_child_"+k] += v
+		if k == "packet_payload_bytes_last_probe" {
+			res.Counts[k] = v
+			continue
+		}
+		res.Counts[pre+k] += v
 	}
-	rres.Viol = append(rres.Viol, cr.Viol...)
-	rres.Evals += cr.Evals
+	res.Viol = append(res.Viol, cr.Viol...)
+	res.Evals += cr.Evals
 	for _, d := range cr.Distinct {
-		rres.Distinct = append(rres.Distinct, "race/"+d)
+		if race {
+			d = "race/" + d
+		}
+		res.Distinct = append(res.Distinct, d)
 	}
-	rres.Inconcl = append(rres.Inconcl, cr.Inconcl...)
-	rres.Counts["race_child_processes"]++
-	rres.mu.Unlock()
+	for _, s := range cr.Samples {
+		if len(res.Samples) < 8 {
+			res.Samples = append(res.Samples, s)
+		}
+	}
+	res.Inconcl = append(res.Inconcl, cr.Inconcl...)
+	res.Counts[pre+"child_processes"]++
+}
+
+func collectRaces(t *testing.T, dir, prefix string, procs int, res *results, reports map[string]*raceReport, rmu *sync.Mutex) {
 	files, _ := filepath.Glob(filepath.Join(dir, "race.*"))
 	blocks := 0
 	for _, f := range files {
@@ -428,7 +559,7 @@ func runChild(t *testing.T, bin, tmp string, ch childSpec, rres *results, report
 			blocks++
 			sig, harnessOnly := b.signature()
 			if harnessOnly {
-				rres.inconclusive("race inside the harness itself (fix the harness): %s", sig)
+				res.inconclusive("race inside the harness itself (fix the harness): %s", sig)
 				t.Logf("harness-internal race:\n%s", b.text)
 				continue
 			}
@@ -439,11 +570,11 @@ func runChild(t *testing.T, bin, tmp string, ch childSpec, rres *results, report
 				reports[sig] = r
 			}
 			r.n++
-			r.procs = appendUnique(r.procs, ch.Procs)
+			r.procs = appendUnique(r.procs, procs)
 			rmu.Unlock()
 		}
 	}
-	rres.count("race_report_blocks", int64(blocks))
+	res.count("race_report_blocks", int64(blocks))
 }
 
 func appendUnique(s []int, v int) []int {
@@ -462,7 +593,7 @@ func tail(b []byte, n int) string {
 	return string(b)
 }
 
-func activeCases(progress []byte) []string {
+func progressOf(progress []byte) (active, ended []string) {
 	act := map[string]bool{}
 	sc := bufio.NewScanner(bytes.NewReader(progress))
 	for sc.Scan() {
@@ -472,19 +603,19 @@ func activeCases(progress []byte) []string {
 				act[f[1]] = true
 			} else {
 				delete(act, f[1])
+				ended = append(ended, f[1])
 			}
 		}
 	}
-	var out []string
 	for k := range act {
-		out = append(out, k)
+		active = append(active, k)
 	}
-	sort.Strings(out)
-	return out
+	sort.Strings(active)
+	return
 }
 
-// TestRaceChild is the body of a race child; it only runs when the parent re-executes the -race binary.
-func TestRaceChild(t *testing.T) {
+// TestChild is the body of a child process; it only runs when TestCheck re-executes the test binary.
+func TestChild(t *testing.T) {
 	jobPath := os.Getenv("VERIF_C18_CHILD")
 	if jobPath == "" {
 		t.Skip("helper for TestCheck")
@@ -503,17 +634,23 @@ func TestRaceChild(t *testing.T) {
 	}
 	fillNodePool(need, job.Dir)
 	res := newResults()
-	var perr error
-	for i := 0; i < 3; i++ {
-		if perr = probeChunk(res); perr == nil {
-			break
+	raceMode = job.Spec.Race
+	if chunk = job.Spec.Chunk; chunk == 0 {
+		var perr error
+		for i := 0; i < 3; i++ {
+			if perr = probeChunk(res); perr == nil {
+				break
+			}
 		}
-	}
-	if perr != nil {
-		t.Fatalf("probe: %v", perr)
+		if perr != nil {
+			t.Fatalf("probe: %v", perr)
+		}
+		res.mu.Lock()
+		res.Counts["packet_payload_bytes_last_probe"] = int64(chunk)
+		res.mu.Unlock()
 	}
 	progress, _ := os.Create(filepath.Join(job.Dir, "progress"))
-	runCases(res, job.Spec.Cases, max(3, min(runtime.GOMAXPROCS(0), 6)), progress)
+	runCases(res, job.Spec.Cases, max(1, job.Spec.Budget), progress)
 	res.mu.Lock()
 	out, _ := json.Marshal(res)
 	res.mu.Unlock()
